@@ -11,6 +11,7 @@ import (
 	"bytes"
 	"context"
 	"crypto/tls"
+	"encoding/hex"
 	"encoding/json"
 	"errors"
 	"fmt"
@@ -235,7 +236,21 @@ func (s *vSim) event(kind string, args ...any) {
 	for _, a := range args {
 		cargs = append(cargs, s.canon(gid, a))
 	}
+	// the options the availability check of installService was given (ownership view, model/M5own.v)
+	if kind == "install" && len(args) >= 1 {
+		if sv, ok := args[0].(*Service); ok && sv != nil {
+			cargs = append(cargs, vToHex(sv.options.Hosts), vToHex(sv.options.PathPrefixes))
+		}
+	}
 	s.events = append(s.events, vEvent{Seq: len(s.events), T: s.now(), G: s.nameG(gid), Kind: kind, Args: cargs})
+}
+
+func vToHex(l []string) []string {
+	out := make([]string, 0, len(l))
+	for _, x := range l {
+		out = append(out, hex.EncodeToString([]byte(x)))
+	}
+	return out
 }
 
 func (s *vSim) yield(point string, args ...any) {
